@@ -257,6 +257,29 @@ func (sc *scen) ttlCase(host string, cl *ident) {
 		{"token", "server-init", hdr([]kv{{"bearer", s1.bearer}}), t0, T},
 		{"token", "client-init", hdr([]kv{{"bearer", s2.bearer}}), t0, T},
 	}
+	// the same credentials DECORATED with parameters of the other credential kind (junk, empty, or a
+	// genuine one): which lifetime applies must follow from what is actually proven, not from which
+	// parameter names are present. what = "mixed": counted apart from the plain probes.
+	junk := b64(rngBytes(sc.rng, 48))
+	plus := func(ps []kv, extra ...kv) []string { return hdr(append(append([]kv(nil), ps...), extra...)) }
+	front := func(ps []kv, extra ...kv) []string { return hdr(append(append([]kv(nil), extra...), ps...)) }
+	for _, s := range []*session{s1, s2} {
+		lbl := "server-init"
+		if s == s2 {
+			lbl = "client-init"
+		}
+		probes = append(probes,
+			probe{"mixed", lbl + "/proof+bearer=junk", plus(s.proof, kv{"bearer", junk}), t0, challengeTTL},
+			probe{"mixed", lbl + "/proof+bearer=AAAA", plus(s.proof, kv{"bearer", "AAAA"}), t0, challengeTTL},
+			probe{"mixed", lbl + "/proof+bearer=empty", plus(s.proof, kv{"bearer", ""}), t0, challengeTTL},
+			probe{"mixed", lbl + "/bearer=junk+proof", front(s.proof, kv{"bearer", junk}), t0, challengeTTL},
+			probe{"mixed", lbl + "/proof+bearer=own-opaque", plus(s.proof, kv{"bearer", getParam(s.proof, "opaque")}), t0, challengeTTL},
+			probe{"mixed", lbl + "/proof+unknown-param", plus(s.proof, kv{"x-verif", junk}), t0, challengeTTL},
+			probe{"mixed", lbl + "/token+sig,opaque=junk", plus([]kv{{"bearer", s.bearer}}, kv{"sig", junk}, kv{"opaque", junk}), t0, T},
+			probe{"mixed", lbl + "/token+own-proof", plus([]kv{{"bearer", s.bearer}}, s.proof...), t0, T},
+			probe{"mixed", lbl + "/token+challenge-client=junk", plus([]kv{{"bearer", s.bearer}}, kv{"challenge-client", junk}), t0, T},
+		)
+	}
 	offsets := func(ttl time.Duration) []time.Duration {
 		return []time.Duration{ttl - time.Second, ttl - time.Nanosecond, ttl, ttl + time.Nanosecond, ttl + time.Second, 2*ttl + time.Minute}
 	}
